@@ -187,6 +187,14 @@ impl<'a> V<'a> {
                 st.class("selection method with a signed-zero operand");
             }
         }
+        // two-argument smooth functions: one case in eight has one real part exactly zero (the axes)
+        if (meth == 25 || meth == 30) && !case.near {
+            match (case.n as i64).rem_euclid(16) {
+                10 => ra = 0.0,
+                11 => rb = 0.0,
+                _ => {}
+            }
+        }
         let fa = make_flat::<T::F>(&lay, ra, &case.a, &case.pres_a, &case.zero);
         let fb = make_flat::<T::F>(&lay, rb, &case.b, &case.pres_b, &[false]);
         let fc = make_flat::<T::F>(&lay, case.rc, &case.c, &case.pres_b, &[false]);
@@ -290,6 +298,9 @@ impl<'a> V<'a> {
                 cx.name = "hypot".into();
                 if ra.abs().max(rb.abs()) < 1e-2 {
                     return Ok(false);
+                }
+                if ra == 0.0 || rb == 0.0 {
+                    st.class("hypot on an axis");
                 }
                 let got = ComplexField::hypot(a.clone(), b.clone());
                 let rf = aj.mul(&aj).add(&bj.mul(&bj)).apply(Fun::Sqrt);
